@@ -233,3 +233,66 @@ pub fn small_leaves() -> Vec<String> {
 pub fn c03_keys() -> Vec<String> {
     strs(&["\"a\"", "\"b\"", "\"\\u0061\"", "\"\""])
 }
+
+
+// ------------------------------------------------------------------------------------------
+// corpus documents shipped with the repository (read at run time from /repo; a missing file is
+// simply not part of the space)
+
+pub fn corpus() -> Vec<(String, Vec<u8>)> {
+    let files = [
+        "/repo/examples/testdata/person.json",
+        "/repo/benchmarks/benches/testdata/book.json",
+        "/repo/benchmarks/benches/testdata/github_events.json",
+        "/repo/benchmarks/benches/testdata/twitter.json",
+        "/repo/benchmarks/benches/testdata/citm_catalog.json",
+        "/repo/benchmarks/benches/testdata/canada.json",
+    ];
+    let mut out = vec![];
+    for f in files {
+        if let Ok(b) = std::fs::read(f) {
+            if b.len() < (3 << 20) {
+                let name = f.rsplit('/').next().unwrap_or(f).to_string();
+                out.push((name, b));
+            }
+        }
+    }
+    out
+}
+
+/// every distinct token of one kind in a document: string literals (with quotes) or numbers
+pub fn corpus_tokens(doc: &[u8], strings: bool) -> Vec<Vec<u8>> {
+    let mut out: Vec<Vec<u8>> = vec![];
+    let mut i = 0;
+    while i < doc.len() {
+        match doc[i] {
+            b'"' => {
+                let st = i;
+                i += 1;
+                while i < doc.len() && doc[i] != b'"' {
+                    if doc[i] == b'\\' {
+                        i += 1;
+                    }
+                    i += 1;
+                }
+                i = (i + 1).min(doc.len());
+                if strings {
+                    out.push(doc[st..i].to_vec());
+                }
+            }
+            b'-' | b'0'..=b'9' => {
+                let st = i;
+                while i < doc.len() && matches!(doc[i], b'-' | b'+' | b'.' | b'e' | b'E' | b'0'..=b'9') {
+                    i += 1;
+                }
+                if !strings {
+                    out.push(doc[st..i].to_vec());
+                }
+            }
+            _ => i += 1,
+        }
+    }
+    out.sort();
+    out.dedup();
+    out
+}
